@@ -55,7 +55,7 @@ class dict_store(base_store):
         '''
         if backend is not None:
             try:
-                self.store = pickle.load(open(backend))
+                self.store = pickle.load(open(backend, 'rb'))
             except IOError:
                 self.store = {}
         else:
@@ -179,7 +179,7 @@ class dict_store(base_store):
 
     def close(self):
         if self.backend is not None:
-            pickle.dump(self.store, open(self.backend, 'w'))
+            pickle.dump(self.store, open(self.backend, 'wb'))
             self.backend = None
     __del__ = close
 
